@@ -375,7 +375,9 @@ class BlockCode(BlockToken):
 
     @staticmethod
     def start(line):
-        return line.replace('\t', '    ', 1).startswith('    ')
+        # an indented chunk starts with a non-blank line: a line of white space
+        # only is a blank line, however far it is indented
+        return line.strip() != '' and line.replace('\t', '    ', 1).startswith('    ')
 
     @classmethod
     def read(cls, lines):
